@@ -56,6 +56,10 @@ RULES = {
     "markhex":  ("-j MARK --set-mark 0x10", "-j MARK --set-xmark 0x10/0xffffffff"),
     "markmask": ("-j MARK --set-xmark 0x1/0xff", "-j MARK --set-xmark 0x1/0xff"),
     "loginfo":  ("-j LOG --log-level 6", "-j LOG --log-level 6"),
+    # flags without argument (their value in the tool's option map is the empty string)
+    "frag":     ("-j ACCEPT -f", "-f -j ACCEPT"),
+    "logtcp":   ("-j LOG --log-tcp-options", "-j LOG --log-tcp-options"),
+    "logip":    ("-j LOG --log-ip-options", "-j LOG --log-ip-options"),
     "ifin":     ("-j ACCEPT -i eth1", "-i eth1 -j ACCEPT"),
     "ifout":    ("-j ACCEPT -o eth1", "-o eth1 -j ACCEPT"),
     "drop":     ("-j DROP", "-j DROP"),
@@ -64,7 +68,7 @@ RULES = {
 ACT = {"tcp8080": "ACCEPT", "tcp80net": "ACCEPT", "tcp80h0": "ACCEPT", "sport": "ACCEPT", "lowports": "ACCEPT",
        "udp1024x": "ACCEPT", "vrrp": "ACCEPT", "proto113": "ACCEPT", "icmp8": "ACCEPT", "icmp0": "ACCEPT",
        "state1": "ACCEPT", "possrc": "DROP", "negold": "DROP", "markhex": "MARK", "markmask": "MARK",
-       "loginfo": "LOG", "ifin": "ACCEPT", "ifout": "ACCEPT",
+       "loginfo": "LOG", "ifin": "ACCEPT", "ifout": "ACCEPT", "frag": "ACCEPT", "logtcp": "LOG", "logip": "LOG",
        "tcp80": "ACCEPT", "udprange": "ACCEPT", "state": "ACCEPT", "negsrc": "DROP", "mark": "MARK",
        "nosyn": "ACCEPT", "loglevel": "LOG", "drop": "DROP", "rawdrop": "DROP"}
 
